@@ -1036,6 +1036,9 @@ void RunPlan(const Plan& plan) {
 int main(int argc, char** argv) {
   vrt::Main m(argc, argv);
   yaclib::verif::gHooks.after = MyAfter;
+  // the default fiber stack is 8 pages; resumptions nest (completer -> coroutine -> its completion -> next coroutine ...)
+  // and the sanitizer builds have large frames
+  yaclib::fiber::SetStackSize(256);
   std::vector<std::pair<std::string, std::string>> plans;
   // plans come from the check (one --param per scenario): name=plan
   for (int i = 1; i + 1 < argc; ++i) {
